@@ -75,7 +75,7 @@ theorem decOptBstr_enc (o : Option Bytes) (r : Bytes) (h : wfOptBytes o = true) 
     decOptBstr (encOptBstr o ++ r) = some (o, r) := by
   cases o with
   | none =>
-    simp [encOptBstr, encNull, decOptBstr, decBstr, decUint, decHead]
+    simp [encOptBstr, encNull, decOptBstr, decBstr, decUint, decTstr, decHead]
   | some d =>
     simp only [encOptBstr, decOptBstr, decBstr_enc d r ((u64_iff _).1 (by simpa [wfOptBytes] using h))]
 
